@@ -31,6 +31,8 @@ type c10Case struct {
 	Threads [][]c10Op `json:"threads"`
 	Inbound int       `json:"inbound"` // inbound QoS1/QoS2 messages sent by the peer meanwhile
 	Close   bool      `json:"close"`   // one more goroutine closes the client while the others run
+	// Disconnect: instead, one more goroutine ends the session gracefully (Disconnect) while the others run
+	Disconnect bool `json:"disconnect,omitempty"`
 	// reconnect variant
 	Cuts   int  `json:"cuts,omitempty"`
 	PingMs int  `json:"pingMs,omitempty"`
@@ -55,7 +57,12 @@ func c10Gen(rt *rapid.T, reconnect bool) c10Case {
 		c.PingMs = rapid.IntRange(1, 3).Draw(rt, "pingMs")
 		c.Direct = rapid.Bool().Draw(rt, "direct")
 	} else {
-		c.Close = rapid.IntRange(0, 3).Draw(rt, "close") == 0
+		switch rapid.IntRange(0, 5).Draw(rt, "close") {
+		case 0:
+			c.Close = true
+		case 1:
+			c.Disconnect = true
+		}
 	}
 	return c
 }
@@ -181,6 +188,18 @@ func c10BaseRun(tb rapid.TB, c c10Case) {
 			r.cli.Close()
 		}()
 	}
+	if c.Disconnect {
+		bg.Add(1)
+		go func() {
+			defer bg.Done()
+			for y := 0; y < 20; y++ {
+				runtime.Gosched()
+			}
+			dctx, dc := context.WithTimeout(context.Background(), 10*time.Second)
+			_ = r.cli.Disconnect(dctx)
+			dc()
+		}()
+	}
 	c10RunOps(ctx, c, r.cli, func(op c10Op, g, i int) bool {
 		switch op.Kind {
 		case "stats":
@@ -196,7 +215,7 @@ func c10BaseRun(tb rapid.TB, c c10Case) {
 	}, &inFlight, &maxOverlap)
 	close(stop)
 	bg.Wait()
-	if !c.Close {
+	if !c.Close && !c.Disconnect {
 		r.peer.sync(20 * time.Second)
 	}
 	labels := []string{fmt.Sprintf("c10:base:max-overlap=%d", minInt(int(maxOverlap), 4))}
